@@ -2,3 +2,4 @@
 pub mod dev;
 pub mod tree;
 pub mod capdispatch;
+pub mod scpidev;
